@@ -8,7 +8,7 @@ def chunkGrowth : Option Nat := (some 2)
 def maxChunk : Option Nat := (some 4194304)
 def smallBuf : Option Nat := (some 32)
 def frameBuffer : Option Nat := (some 8388608)
-def sendNonceStep : Option Nat := none
+def sendNonceStep : Option Nat := (some 2)
 def recvNonceStep : Option Nat := (some 2)
 def bossSendParity : Option Nat := (some 0)
 def bossRecvParity : Option Nat := (some 1)
